@@ -801,7 +801,7 @@ const ASSUME: &[&str] = &[
 pub static C09: PropDef = PropDef {
     id: "C09",
     level: "exploration",
-    rule: "proptest generates a process plan (exit instant or never, any exit code 0..255 or signal 1..64 with/without core, reactions to signals) and a history of up to 30 operations from poll/wait/wait_timeout/pid/exit_status/terminate/kill/send_signal/detach/advance-time/external-reap/drop, run against the real Popen on the simulated process table. Oracle: reference model fed by the simulator's log: a status is reported only if a wait call observed the child's end, equals the decoded ground truth (Undetermined iff reaped externally), never changes afterwards, pid() is None from then on, and no further waitpid/kill is issued. Non-trivial = at least two different query methods after the first report, or an external reap, or the exit falls between two queries.",
+    rule: "proptest generates a process plan (exit instant or never, any exit code 0..255 or signal 1..64 with/without core, reactions to signals) and a history of up to 30 operations from poll/wait/wait_timeout/pid/exit_status/terminate/kill/send_signal/detach/advance-time/external-reap/drop, run against the real Popen on the simulated process table. Oracle: reference model fed by the simulator's log: a status is reported only if a wait call observed the child's end, equals the decoded ground truth (Undetermined iff reaped externally), never changes afterwards, pid() is None from then on, and no further waitpid/kill is issued. Non-trivial = at least two different query methods after the first report, or an external reap, or the exit falls between two queries. Plans may make the first 1-3 blocking waits on a live child fail with EINTR (an error is accepted then, a status is not) and the simulated process table has job control (SIGSTOP/TSTP/TTIN/TTOU stop the child and put its exit off, SIGCONT resumes it, stop/continue reports go only to WUNTRACED/WCONTINUED callers and are not terminations).",
     assumptions: ASSUME,
     engines: "simproc",
     workers: |_| 16,
@@ -812,7 +812,7 @@ pub static C09: PropDef = PropDef {
 pub static C10: PropDef = PropDef {
     id: "C10",
     level: "exploration",
-    rule: "same histories weighted toward terminate/kill/send_signal (every signal number 0..64). Oracle over the simulator's kill log: each signal call made while the status is unknown issues exactly one kill(pid, SIGTERM|SIGKILL|s) with the child's pid; each one made after the status became known (through any method, or Undetermined) issues none and returns Ok; no kill to any other pid ever; drop sends nothing. Non-trivial = at least one signal call before and one after the point where the status became known.",
+    rule: "same histories weighted toward terminate/kill/send_signal (every signal number 0..64). Oracle over the simulator's kill log: each signal call made while the status is unknown issues exactly one kill(pid, SIGTERM|SIGKILL|s) with the child's pid; each one made after the status became known (through any method, or Undetermined) issues none and returns Ok; no kill to any other pid ever; drop sends nothing. Non-trivial = at least one signal call before and one after the point where the status became known. The last operation may be a drop of the Popen by stack unwinding (its owner panics), which must not signal either.",
     assumptions: ASSUME,
     engines: "simproc",
     workers: |_| 16,
